@@ -195,6 +195,13 @@ pub enum Kit {
     ValidRecs,
     /// complete records whose leaves are all invalid
     InvalidRecs,
+    /// like ValidRecs / InvalidRecs, but every scalar inside the records is itself an alias to an
+    /// anchored scalar (alias inside a merge source)
+    ValidRecsAliased,
+    InvalidRecsAliased,
+    /// complete records for every validity pattern of Leaf (4), Inner (16, leaf-node through an
+    /// alias to the Leaf record), Item without subItems (4) and Item with one sub-item (16)
+    AllCombos,
     /// random collection
     Random,
 }
@@ -211,6 +218,8 @@ pub struct Params {
     pub p_decoy: usize,
     pub shuffle: bool,
     pub kit: Kit,
+    /// free mode: lists up to 5 items / 3 sub-items instead of 3 / 2
+    pub big: bool,
 }
 
 impl Params {
@@ -224,6 +233,7 @@ impl Params {
         p_decoy: 0,
         shuffle: false,
         kit: Kit::None,
+        big: false,
     };
 }
 
@@ -602,10 +612,11 @@ impl<'a> Gen<'a> {
         let n = match self.forced {
             Some(fc) => fc.counts.get(path).copied().unwrap_or(0),
             None => {
+                let extra = if self.pr.big { 2 } else { 0 };
                 if s == SId::Item {
-                    self.rng.below(4)
+                    self.rng.below(4 + extra)
                 } else {
-                    self.rng.below(3)
+                    self.rng.below(3 + extra / 2)
                 }
             }
         };
@@ -660,11 +671,72 @@ impl<'a> Gen<'a> {
                     self.anchors.push((name.to_string(), AV::Sc(v)));
                 }
             }
-            Kit::ValidRecs | Kit::InvalidRecs => {
-                let ok = saved.kit == Kit::ValidRecs;
+            Kit::AllCombos => {
+                let sv = |ok: bool| V::S((if ok { "ab" } else { "x" }).to_string());
+                let iv = |ok: bool| V::I(if ok { 5 } else { 0 });
+                let sn = |v: &V| match v {
+                    V::S(t) => Node::plain(t),
+                    V::I(i) => Node::plain(&i.to_string()),
+                    _ => unreachable!(),
+                };
+                let b = |x: usize, i: usize| x >> i & 1 == 1;
+                let mut leafs = Vec::new();
+                for c in 0..4 {
+                    let (t, w) = (sv(b(c, 0)), iv(b(c, 1)));
+                    let name = format!("l{c}");
+                    let n = Node::fmap(vec![(Node::plain("tag"), sn(&t)), (Node::plain("weight"), sn(&w))]).with_anchor(&name);
+                    entries.push((key(&mut k), n));
+                    self.anchors.push((name, AV::Rec(SId::Leaf, vec![Some(t.clone()), Some(w.clone())], Some(vec![t.clone(), w.clone()]))));
+                    leafs.push(V::Rec(SId::Leaf, vec![t, w]));
+                }
+                for c in 0..16 {
+                    let (h, p, lf) = (sv(b(c, 0)), iv(b(c, 1)), c >> 2);
+                    let name = format!("i{c}");
+                    let n = Node::fmap(vec![
+                        (Node::plain("host-name"), sn(&h)),
+                        (Node::plain("port-no"), sn(&p)),
+                        (Node::plain("leaf-node"), Node::alias(&format!("l{lf}"))),
+                    ])
+                    .with_anchor(&name);
+                    entries.push((key(&mut k), n));
+                    let vals = vec![h, p, leafs[lf].clone()];
+                    self.anchors.push((name, AV::Rec(SId::Inner, vals.iter().cloned().map(Some).collect(), Some(vals))));
+                }
+                for c in 0..4 {
+                    let (nm, q) = (sv(b(c, 0)), iv(b(c, 1)));
+                    let name = format!("t{c}");
+                    let n = Node::fmap(vec![(Node::plain("itemName"), sn(&nm)), (Node::plain("qty"), sn(&q))]).with_anchor(&name);
+                    entries.push((key(&mut k), n));
+                    self.anchors.push((name, AV::Rec(SId::Item, vec![Some(nm.clone()), Some(q.clone()), None], Some(vec![nm, q, V::List(vec![])]))));
+                }
+                for c in 0..16 {
+                    let (nm, q, lf) = (sv(b(c, 0)), iv(b(c, 1)), c >> 2);
+                    let name = format!("u{c}");
+                    let n = Node::fmap(vec![
+                        (Node::plain("itemName"), sn(&nm)),
+                        (Node::plain("qty"), sn(&q)),
+                        (Node::plain("subItems"), Node::fseq(vec![Node::alias(&format!("l{lf}"))])),
+                    ])
+                    .with_anchor(&name);
+                    entries.push((key(&mut k), n));
+                    let vals = vec![nm, q, V::List(vec![leafs[lf].clone()])];
+                    self.anchors.push((name, AV::Rec(SId::Item, vals.iter().cloned().map(Some).collect(), Some(vals))));
+                }
+            }
+            Kit::ValidRecs | Kit::InvalidRecs | Kit::ValidRecsAliased | Kit::InvalidRecsAliased => {
+                let ok = matches!(saved.kit, Kit::ValidRecs | Kit::ValidRecsAliased);
+                let aliased = matches!(saved.kit, Kit::ValidRecsAliased | Kit::InvalidRecsAliased);
                 let s = |t: &str| V::S(t.to_string());
                 let (sv, iv) = if ok { (s("ab"), V::I(5)) } else { (s("x"), V::I(0)) };
+                if aliased {
+                    let t = if ok { "ab" } else { "x" };
+                    let i = if ok { "5" } else { "0" };
+                    entries.push((key(&mut k), Node::plain(t).with_anchor("ks")));
+                    entries.push((key(&mut k), Node::plain(i).with_anchor("kn")));
+                }
                 let sn = |v: &V| match v {
+                    V::S(_) if aliased => Node::alias("ks"),
+                    V::I(_) if aliased => Node::alias("kn"),
                     V::S(t) => Node::plain(t),
                     V::I(i) => Node::plain(&i.to_string()),
                     _ => unreachable!(),
